@@ -66,6 +66,12 @@ def make_loss(spec):
     from black_it.loss_functions.msm import MethodOfMomentsLoss
 
     w = None if spec.get("weights") is None else np.array(spec["weights"], dtype=float)
+    if w is not None and spec.get("weights_as") in ("int", "bool", "list"):
+        # the same numbers handed over as an integer / boolean array or a plain list (only when they are integral)
+        if spec["weights_as"] == "list":
+            w = [int(v) if float(v).is_integer() else float(v) for v in spec["weights"]]
+        elif np.all(w == np.rint(w)) and (spec["weights_as"] == "int" or set(w.tolist()) <= {0.0, 1.0}):
+            w = w.astype(int if spec["weights_as"] == "int" else bool)
     f = None if spec.get("filters") is None else [FILTERS[n] for n in spec["filters"]]
     k = spec["kind"]
     if k == "minkowski":
@@ -147,7 +153,7 @@ def build_data(ds):
 def weights_spec(draw, d, allow_none=True, extreme=False):
     if allow_none and draw(st.integers(0, 2)) == 0:
         return None
-    el = st.sampled_from([0.0, 1.0, 0.5, 2.0, 0.25, -1.0] if extreme else [1.0, 0.5, 2.0, 0.25, 3.0])
+    el = st.sampled_from([0.0, 1.0, 0.5, 2.0, 0.25, -1.0, 1.0, 2.0] if extreme else [1.0, 0.5, 2.0, 0.25, 3.0, 1.0, 2.0])
     return draw(st.lists(el, min_size=d, max_size=d))
 
 
@@ -162,6 +168,7 @@ def filters_spec(draw, d, allow_none=True, names=("none", "demean", "diffpad", "
 def loss_spec(draw, d, n, kind=None, nonneg_weights=True):
     kind = kind or draw(st.sampled_from(["minkowski", "msm", "fourier", "gsl", "likelihood"]))
     spec = {"kind": kind, "weights": draw(weights_spec(d, extreme=not nonneg_weights)),
+            "weights_as": draw(st.sampled_from(["float", "float", "int", "bool", "list"])),
             "filters": draw(filters_spec(d, names=("none", "demean", "diffpad", "double", "reverse", "cumsum")
                                          if n < 3 else ("none", "demean", "diffpad", "double", "reverse", "cumsum", "hp")))}
     if kind == "minkowski":
@@ -182,7 +189,7 @@ def loss_spec(draw, d, n, kind=None, nonneg_weights=True):
         spec["f"] = draw(st.sampled_from([1.0, 0.8, 0.5, 0.3, 0.75, 0.1, 0.25]))
     elif kind == "gsl":
         spec["nb_values"] = draw(st.one_of(st.none(), st.integers(2, 25)))
-        spec["nb_word_lengths"] = draw(st.one_of(st.none(), st.integers(1, min(n, 18))))
+        spec["nb_word_lengths"] = draw(st.one_of(st.none(), st.integers(1, min(n, 18)), st.integers(1, min(n, 70))))
     elif kind == "likelihood":
         spec["h"] = draw(st.sampled_from(["silverman", "scott", 0.5, 1.0, 2.0]))
     return spec
